@@ -17,6 +17,7 @@ import (
 	"sync"
 	"sync/atomic"
 	"time"
+	"verif/internal/explore"
 )
 
 // Root is the /verif directory (evidence, replays and known_findings.json live below it).
@@ -140,7 +141,40 @@ func New(property, level string, tier Tier) *Recorder {
 	for i := range r.shards {
 		r.shards[i].m = map[uint64]struct{}{}
 	}
+	explore.PanicHook = r.panicHook
 	return r
+}
+
+// panicHook turns a panic that was raised inside jennifer (the innermost non-runtime frame of the
+// panicking goroutine belongs to the library) while a check was building or rendering code
+// outside its own guarded sections into a violation; any other panic is a harness failure.
+func (r *Recorder) panicHook(where string, p any, stack []byte) bool {
+	lines := strings.Split(string(stack), "\n")
+	started := false
+	for _, l := range lines {
+		if strings.HasPrefix(l, "panic(") {
+			started = true
+			continue
+		}
+		if !started || strings.HasPrefix(l, "\t") || strings.HasPrefix(l, "runtime.") || strings.HasPrefix(l, "runtime/") {
+			continue
+		}
+		// the first frame after panic(...) that is not the runtime's
+		if strings.HasPrefix(l, "github.com/dave/jennifer/jen.") {
+			lid := strings.ToLower(r.Property)
+			r.Violate(Violation{Signature: lid + ":panic-inside-jennifer:" + problemHead(fmt.Sprint(p)), What: fmt.Sprintf("%s: jennifer panicked: %v", where, p), Case: JSON(where), Detail: string(stack)})
+			return true
+		}
+		return false
+	}
+	return false
+}
+
+func problemHead(s string) string {
+	if len(s) > 50 {
+		s = s[:50]
+	}
+	return s
 }
 
 // SetDeadline installs an internal deadline; checks poll Expired and stop early (exit 0,
